@@ -400,7 +400,16 @@ where
                     .unwrap(),
             );
         }
-        hs.into_iter().map(|h| h.join().expect("worker thread died")).collect()
+        hs.into_iter()
+            .map(|h| match h.join() {
+                Ok(v) => v,
+                Err(e) => {
+                    let msg = e.downcast_ref::<String>().cloned().or_else(|| e.downcast_ref::<&str>().map(|s| s.to_string())).unwrap_or_default();
+                    eprintln!("BROKEN-HARNESS: worker thread died: {msg}");
+                    std::process::exit(2);
+                }
+            })
+            .collect()
     });
     for v in results {
         for (i, r) in v {
